@@ -206,6 +206,9 @@ class BLEUScoreE(Entry):
             {"n_gram": 2, "weights": [F(2), F(1, 2)]},          # not normalised
             {"n_gram": 1, "weights": [F(3)]},
             {"n_gram": 2, "weights": [F(1), F(0)]},             # zero weight: 0 * log(0) = nan
+            {"n_gram": 2, "weights": [F(0), F(1)]},
+            {"n_gram": 3, "weights": [F(1, 2), F(1, 2), F(0)]},
+            {"n_gram": 4, "weights": [F(1), F(0), F(0), F(0)]},
             {"n_gram": 3, "weights": [F(1, 4), F(1, 4), F(1, 2)]},
             {"n_gram": 4, "weights": [F(1), F(1), F(1), F(1)]},
         ]
